@@ -356,6 +356,22 @@ def illegal_mid_sequence(simname='Simulation', k=2, with_expected=False):
 
 
 @__import__('fam.designs', fromlist=['design']).design
+def long_names(w=3):
+    """outputs and inputs whose names are longer than any column of a report (and share long prefixes)"""
+    import pyrtl
+    a = pyrtl.Input(w, 'operand_register_a')
+    b = pyrtl.Input(w, 'operand_register_b')
+    lo = pyrtl.Output(w, 'alu_result_lo')
+    hi = pyrtl.Output(w, 'alu_result_hi')
+    lo <<= (a + b)[:w]
+    hi <<= (a * b)[w:2 * w] if w > 1 else (a & b)
+    x = pyrtl.Output(w, 'an_output_wire_with_a_name_of_forty_chars')
+    x <<= a ^ b
+    y = pyrtl.Output(w, 'an_output_wire_with_a_name_of_forty_char5')
+    y <<= a | b
+
+
+@__import__('fam.designs', fromlist=['design']).design
 def vcd_names(w=3):
     """traced wires whose names need sanitising for VCD, next to wires named like their
     punctuation-replaced forms, and names that differ only by where leading zeros sit"""
